@@ -466,7 +466,7 @@ PROPS["C05"] = dict(
     ],
 )
 
-U07 = {r"select_in_word_ctz|pdep_u64|spec.*select_in_word": 66, r"spec.*rank1|spec.*select1|build_ib_rank": 14}
+U07 = {r"select_in_word_ctz|pdep_u64|spec.*select_in_word": 66, r"spec.*rank1|spec.*select1|build_ib_rank": 14, r"ib_select1": 7}
 
 PROPS["C07"] = dict(
     module="c07",
@@ -481,6 +481,10 @@ PROPS["C07"] = dict(
         H("c07_ib_4w_pdep", timeout=900, unwindset=U07, bounds="4 words, PDEP model"),
         H("c07_ib_9w", timeout=1800, unwindset=U07, tier="thorough", bounds="9 words (three galloping doublings)"),
         H("c07_ib_12w", timeout=2700, unwindset=U07, tier="thorough", bounds="12 words"),
+        H("c07_hint_2w", timeout=1800, unwindset=U07, bounds="2 words, every k, every hint 0..=12"),
+        H("c07_hint_4w", timeout=2700, unwindset=U07, bounds="4 words, every hint 0..=14"),
+        H("c07_hint_9w", timeout=2700, unwindset=U07, tier="thorough", bounds="9 words (three galloping doublings), every hint 0..=19"),
+        H("c07_hint_12w", timeout=2700, unwindset=U07, tier="thorough", bounds="12 words, every hint 0..=22"),
         H("c07_ib_empty", timeout=300, bounds="no words"),
         H("c07_from_serialized_parts_2w", timeout=900, unwindset=U07, bounds="2 words through the byte serialization"),
         H("c07_witness_must_fail", kind="witness", tier="thorough", timeout=600, unwindset=U07),
